@@ -107,19 +107,29 @@ def run(F, ck, tier):
         def sigs(fn):
             fl = flow.Flow(F, fn)
             out = []
+            prev = []
             for e in fl.events:
                 if e.kind != 'return':
                     continue
                 val = sorted({x[2:].split('.')[0] for x in flow.flat(e.val) if x.startswith('p:') and x[2:].split('.')[0] != 'self'})
-                cond = set()
+                cond, own, frames = set(), set(), []
                 for fr in e.ctx:
                     if fr[0] == 'if':
+                        c1 = set()
                         for x in flow.flat(fr[1]):
                             if x.startswith('p:') and x[2:].split('.')[0] != 'self':
-                                cond.add(x[2:].split('.')[0])
+                                c1.add(x[2:].split('.')[0])
                             elif x.startswith('c:') and x.split('::')[-1] in ('is_one', 'is_zero'):
-                                cond.add(x.split('::')[-1])
-                out.append((tuple(val), tuple(sorted(cond))))
+                                c1.add(x.split('::')[-1])
+                        frames.append(frozenset(c1))
+                        cond |= c1
+                # the guards of THIS shortcut: the conditions that were not already in force at the previous early return
+                # (those are the negations of earlier shortcuts, carried along by every later return)
+                for c1 in frames:
+                    if c1 not in prev:
+                        own |= c1
+                prev = frames
+                out.append((tuple(val), tuple(sorted(cond)), tuple(sorted(own))))
             return sorted(out)
         sa, sb = sigs(a), sigs(b)
         ck.ob('R01.3', 'special-cases:base~ext', sa == sb and len(sa) >= 4, '%d early returns with identical (operand, guard) signatures' % len(sa) if sa == sb else
